@@ -43,7 +43,7 @@ class Thrown(Exception):
     pass
 
 
-VALS = [object(), "v1", 42, None, ("t", 1), 0.5]
+VALS = [object(), "v1", 42, None, ("t", 1), 0.5, ValueError("an exception object sent as a plain value"), Thrown("value, not thrown")]
 EXCS = [Thrown("t0"), Thrown("t1"), KeyError("k"), ValueError("v")]
 
 
@@ -302,8 +302,8 @@ def classify(case, info):
 def bodies(depth=3):
     leaf = st.one_of(
         st.just(["log"]),
-        st.tuples(st.just("yield"), st.integers(0, 5)).map(list),
-        st.tuples(st.just("yield"), st.integers(0, 5)).map(list),
+        st.tuples(st.just("yield"), st.integers(0, 7)).map(list),
+        st.tuples(st.just("yield"), st.integers(0, 7)).map(list),
     )
 
     def level(d):
@@ -318,7 +318,7 @@ def bodies(depth=3):
             below.map(lambda b: ["try", b]),
             below.map(lambda b: ["yieldfrom", b]),
         )
-        tail = st.one_of(st.none(), st.none(), st.integers(0, 5).map(lambda v: ["return", v]))
+        tail = st.one_of(st.none(), st.none(), st.integers(0, 7).map(lambda v: ["return", v]))
         return st.tuples(st.lists(node, min_size=1, max_size=4), tail).map(lambda p: p[0] + ([p[1]] if p[1] else []))
 
     return level(depth)
@@ -328,7 +328,7 @@ def strategy():
     step = st.tuples(
         st.integers(0, 2),
         st.sampled_from(["next", "next", "next", "send", "send", "throw", "close"]),
-        st.integers(0, 5),
+        st.integers(0, 7),
         st.integers(0, 3),
     ).map(list)
     return st.integers(1, 3).flatmap(
